@@ -23,8 +23,8 @@ PROP = {
             ["harness/app/internal/http/c18_mock_test.go", "harness/app/internal/http/c18_http_test.go",
              "harness/app/internal/http/c18_history_test.go"],
             "^TestVerifC18HTTP", ["http-gate", "http-relay", "http-history"], race=False, timeout_quick=600, timeout_thorough=3600),
-        job("mux-parts", "app", "./internal/proxymux/", "proxymux", MUXF, "^TestVerifC18Mux(Handover|Bytes|E2E)$",
-            ["mux-handover", "mux-bytes", "mux-e2e"], race=False, timeout_quick=600, timeout_thorough=3600),
+        job("mux-parts", "app", "./internal/proxymux/", "proxymux", MUXF, "^TestVerifC18Mux(Handover|Bytes|E2E|Held)$",
+            ["mux-handover", "mux-bytes", "mux-e2e", "mux-held"], race=False, timeout_quick=600, timeout_thorough=3600),
         # own child: the outcome under test can be a process-fatal panic inside a mux goroutine
         job("mux-relisten", "app", "./internal/proxymux/", "proxymux", MUXF, "^TestVerifC18MuxRelisten$",
             ["mux-relisten"], race=False, timeout_quick=300, timeout_thorough=300),
@@ -74,14 +74,17 @@ PROP = {
              "mux-handover / mux-relisten: gated schedules H1..H4 (hand-over pending at Close; Accept return delayed over "
              "the mux shutdown; first byte after Close, optionally after re-registration; re-registration inside the "
              "shutdown path) and H6 (Close immediately followed by Listen* of the same protocol, the re-registration forced "
-             "ahead of the main loop through the mux's own mutex, with and without the other protocol registered). mux-bytes: all 256 first-byte values, payloads 0..64 KiB, client chunkings, handler reads with "
+             "ahead of the main loop through the mux's own mutex, with and without the other protocol registered). mux-held: 1 or 7 sessions (socks/http first bytes mixed) are delivered and still in use (client paused after 1..n bytes) "
+             "when one / both sub-listeners are closed or the base Accept fails; a delivered connection may only be closed by "
+             "its handler (judged in every fake-listener part: mux:delivered-conn-closed-by-mux), the rest of the stream must "
+             "reach the handler and the handler's reply the client. mux-bytes: all 256 first-byte values, payloads 0..64 KiB, client chunkings, handler reads with "
              "zero-length/1-byte/random buffers. mux-e2e: real socks5.Server and http.Server behind the mux, whole sessions "
              "pipelined in one stream. mux-stress: 5 goroutines (2 register/close loops, 3 dialers) with virtual-time jitter "
              "under -race. mux-tcp: random operation sequences through the real muxManager on 127.0.0.1:0. "
              "A case is non-trivial when the AuthFunc was consulted (gate), a payload was relayed (relay), or a connection "
              "was accepted by the mux (mux parts); distinct = distinct case id (seeded script)."),
     "exhaustive_note": ("mux-enum is exhaustive within its bound: all operation sequences up to length 5 in six modes and "
-                        "length 6 in modes eager and lazy (quick), up to length 7 in all six modes "
+                        "length 6 in mode lazy (quick), up to length 7 in all six modes "
                         "(thorough); counters mux-enum.enumerated_len_<n>_<mode> give the executed counts, "
                         "mux-enum.enumerated_sequences_pruned_as_redundant the skipped no-op variants. Goroutine schedules "
                         "inside a mode are those the Go scheduler produced (burst modes, mux-stress) or the gated ones of "
